@@ -12,7 +12,7 @@ EPS = Fraction(1, 2 ** 52)
 RULE = ('inv on: ALL 2x2 matrices with entries -3..3 (2401), ALL 3x3 with entries -1..1 (19683), 3x3 with entries -2..2 (quick: sample, '
         'thorough: all 1953125), random n<=8 by class: dense, small integers, diagonally dominant, matrices forcing cyclic / arbitrary row '
         'permutations (shifted identity with noise, shuffled rows of a dominant matrix, scaled permutation matrices: non-symmetric P), '
-        'singular (zero row, zero column, repeated row, scaled row, entries -2..2 with det 0 for n up to 8), whole matrices scaled by 2^-60..2^60, 1x1, 0x0; non-square and empty shapes; '
+        'singular (zero row, zero column, repeated row, scaled row, entries -2..2 with det 0 for n up to 8), whole matrices scaled by 2^-60..2^60, threshold_window (smallest pivot of plu at c*eps*max|a|, c in (1/4, 4n), on both sides of and exactly at c = 1 and c = n), 1x1, 0x0; non-square and empty shapes; '
         'inv2 (inverse of the inverse) on the well-conditioned classes.  Integer-valued inputs are run both as Arr2D<f64> and Arr2D<i32> '
         '(the harness reports any difference).  distinct = distinct case line; non-trivial = square with n >= 2')
 TRUSTED = ['extraction of the float instance (ExtrOcamlBasic, ExtrOCamlFloats, ExtrOCamlInt63) and ocaml/c10.ml',
@@ -453,6 +453,56 @@ def singular_int(rng, n):
             return m
 
 
+def threshold_window(rng, n, c, k, exact):
+    """a non-singular matrix whose pivot number k under partial pivoting is c * eps * max|a| (the code's threshold is
+    n * eps * max|a|).  A = P^T L U with L unit lower, |l_ij| <= 1/2 (so partial pivoting undoes P and reproduces L, U),
+    U with diagonal +-1 / +-2 except u_kk = p.  exact=True: dyadic entries with few bits and a zero column above u_kk, so
+    A, every elimination step and the threshold are exact in binary64 and the computed pivot/threshold ratio is exactly
+    c/n; exact=False: dense U, A rounded from exact rationals, the computed pivot lands near c*eps*max|a|."""
+    half = [Fraction(0), Fraction(1, 2), Fraction(-1, 2), Fraction(1, 4), Fraction(-1, 4)]
+    L = [[Fraction(int(i == j)) for j in range(n)] for i in range(n)]
+    U = [[Fraction(0)] * n for _ in range(n)]
+    for i in range(n):
+        for j in range(i):
+            L[i][j] = rng.choice(half) if exact else Fraction(rng.randint(-512, 512), 1024)
+        U[i][i] = Fraction(rng.choice([1, -1, 2, -2]))
+        for j in range(i + 1, n):
+            U[i][j] = Fraction(rng.choice([0, 1, -1, 2, -2, 1, -1])) / rng.choice([1, 2]) if exact else Fraction(rng.randint(-2048, 2048), 1024)
+    if exact:
+        for t in range(k):
+            U[t][k] = Fraction(0)
+    sig = list(range(n))
+    rng.shuffle(sig)
+    sh = 2 ** rng.choice([0, 0, 0, -20, 20, 7, -3])
+
+    def build(p):
+        U[k][k] = p
+        M = [[sum(L[i][t] * U[t][j] for t in range(min(i, j) + 1)) * sh for j in range(n)] for i in range(n)]
+        return [M[sig[i]] for i in range(n)]
+    scale = max(abs(x) for r in build(Fraction(0)) for x in r)
+    p = Fraction(c) * Fraction(1, 2 ** 52) * scale * rng.choice([1, -1]) / sh
+    A = build(p)
+    rows = [[float(x) for x in r] for r in A]
+    if exact:
+        assert all(Fraction(rows[i][j]) == A[i][j] for i in range(n) for j in range(n))
+    return rows
+
+
+def threshold_window_cases(rng, count):
+    out = []
+    for q in range(count):
+        n = 2 + q % 9
+        exact = q % 3 != 2
+        k = n - 1 if q % 2 == 0 else rng.randrange(0, n)
+        cs = [Fraction(1, 4), Fraction(1, 2), Fraction(3, 4), 1 - Fraction(1, 2 ** 20), Fraction(1), 1 + Fraction(1, 2 ** 20),
+              Fraction(5, 4), Fraction(n, 2), Fraction(n) - Fraction(1, 4), n * (1 - Fraction(1, 2 ** 20)), Fraction(n),
+              n * (1 + Fraction(1, 2 ** 20)), Fraction(n) + Fraction(1, 4), Fraction(2 * n), Fraction(4 * n) - Fraction(1, 2),
+              Fraction(n + 1, 2), Fraction(3 * n, 4)]
+        c = cs[q % len(cs)] if q < 2 * len(cs) else Fraction(rng.randint(1, 16 * n), 4)
+        out.append(threshold_window(rng, n, c, k, exact))
+    return out
+
+
 def gen(rng, tier):
     quick = tier == 'quick'
     for e in itertools.product(range(-3, 4), repeat=4):
@@ -466,6 +516,9 @@ def gen(rng, tier):
         for e in itertools.product((-2.0, -1.0, 0.0, 1.0, 2.0), repeat=9):
             yield mk('inv', [list(e[0:3]), list(e[3:6]), list(e[6:9])], 'ex3x3_2')
     k = 1 if quick else 25
+    for m in threshold_window_cases(rng, 44 if quick else 600):
+        if len(m) <= 8:
+            yield mk('inv', m, 'threshold_window')
     # the fixed witness of the known finding F21 (keeps the KNOWN-FINDING line stable)
     yield mk('inv', F21_WITNESS, 'f21witness')
     yield mk('inv', [], 'empty')
@@ -511,3 +564,42 @@ def gen(rng, tier):
         rows = [[float(rng.randint(-3, 3)) if rng.random() < 0.5 else rng.uniform(-2, 2) for _ in range(w)] for _ in range(h)]
         yield mk('inv', rows, 'nonsquare', w)
         yield mk('inv2', rows, 'nonsquare', w)
+
+
+# ---- extraction cross-check: the same cases evaluated inside Coq by vm_compute
+from tools import xenc
+COQ_IMPORTS = 'Base.XEnc Base.Mat Model.LU Model.Inverse'
+XCHECK_N = 200
+_X_BITS = '(fun n m => map float_bits (concat (@lists_of_mat float n n m)))'
+
+
+def coq_term(case):
+    t = xenc.Toks(case.line)
+    cmd = t.word()
+    if cmd not in ('inv', 'inv2'):
+        return None
+    h, w, rows = t.fmat()
+    # crc thinning below XCHECK_N (every eligible case is then taken); functional matrices are slow under
+    # vm_compute, so the larger sizes are thinned harder
+    if not xenc.keep(case, 500 if h <= 3 else 20 if h <= 6 else 60):
+        return None
+    a = '(@mat_of_lists float FNum %s)' % xenc.cq_fmat(rows)
+    H = '%d%%nat' % h
+    if cmd == 'inv':
+        return 'enc_res (fun b => %d :: %s %s b) (@inverse float FNum %s %d%%nat %s)' % (h, _X_BITS, H, H, w, a)
+    # inv2: ok n B B^-1 | err1 K | err2 K | panic  ->  0 :: n :: .. | [11; code] | [12; code] | [2]
+    return ('match @inverse float FNum %s %d%%nat %s with '
+            '| Ok b => match @inverse float FNum %s %s b with '
+            '| Ok a2 => 0 :: %d :: %s %s b ++ %s %s a2 | Err e => [12; err_code e] | Panic _ => [2] end '
+            '| Err e => [11; err_code e] | Panic _ => [2] end' % (H, w, a, H, H, h, _X_BITS, H, _X_BITS, H))
+
+
+def encode_result(case, model_line):
+    t = model_line.split()
+    if t[0] == 'ok':
+        return [0, int(t[1])] + [xenc.float_tok_bits(x) for x in t[2:]]
+    if t[0] in ('err1', 'err2', 'err'):
+        return [{'err': 1, 'err1': 11, 'err2': 12}[t[0]], xenc.err_code(t[1])]
+    if t[0] == 'panic':
+        return [2]
+    return [-99]
